@@ -26,7 +26,7 @@ func runC08(c *Ctx) {
 	c.NotCovered("decode(encode(x)) == x and re-encoding stability (value-level)")
 	c.Clause("C08.6 totality of the parse side: every index, slice, computed-size allocation, explicit panic, unchecked type assertion and integer division in the functions reachable from the parse entry points of internal/wire, quicvarint and the token / session-ticket decoders of internal/handshake is either a bounds check the Go compiler's prove pass removed, or follows from a length fact established for that very slice (dominating comparison, quicvarint.Parse's error-free edge, construction, checked caller contract), or is a frozen exception with its reason")
 	c.Clause("C08.7 the frame parser resets its reused AckFrame (all fields) before parsing into it")
-	c.Clause("C08.9 durations read from transport-parameter, ACK and ACK_FREQUENCY varints are bounded before the unit multiplication (no int64 wrap); C08.10 max_idle_timeout 0 is kept as 0 (no timeout), not raised to the minimum")
+	c.Clause("C08.9 durations read from transport-parameter, ACK and ACK_FREQUENCY varints are bounded before the unit multiplication (no int64 wrap); C08.10 max_idle_timeout 0 is kept as 0 (no timeout), not raised to the minimum; C08.11 the long-header type-bit tables of parseLongHeader, ExtendedHeader.Append and Is0RTTPacket are inverse / agree per QUIC version")
 	c.Clause("C08.8 on the parse side every subtraction of wire-derived values is dominated by a comparison that bounds the subtrahend by that very minuend (ACK range arithmetic)")
 	c.NotCovered("fixed-width byte counts in Append vs Length; totality of the writers (Append on frames built by this endpoint) and of the logging helpers")
 	c.NotCovered("encoding/asn1 itself (tokens) and the AEAD layer around tokens and session tickets")
@@ -40,6 +40,7 @@ func runC08(c *Ctx) {
 	c.rule("C08.7", func() { c08AckFrameReset(c) })
 	c.rule("C08.8", func() { c08GuardedSubtractions(c) })
 	c.rule("C08.9", func() { c08DurationsSaturate(c) })
+	c.rule("C08.11", func() { c08LongHeaderTypeTables(c) })
 }
 
 // ---- helpers ----
